@@ -1,5 +1,5 @@
 (* C05 - Values a column cannot represent are rejected, never silently altered. *)
-From Verif Require Import Conv Conv_proofs SerializerTables SerTablesSpec.
+From Verif Require Import Conv Conv_proofs SerializerTables SerTablesSpec DictBuilder UnionBuilder.
 
 (* Full-strength statement (kept visible): on every serialization cell of the run the C01 oracle
    is evaluated inside Coq (accepted => the arrays decode to exactly interp(value); a value outside
@@ -65,5 +65,28 @@ Example C05_example :
   conv_de_int (RInt U8) (-1) = Err /\ conv_de_int RChar 55296 = Err /\ conv_de_int RChar 233 = Ok (VdChar 233).
 Proof. vm_compute. repeat split; reflexivity. Qed.
 
+(* container-level classes on the union and dictionary builder models: a variant index the union does not declare (negative,
+   beyond the last variant, or outside the i8 type ids) is an error and nothing is written; a value that is not an enum variant
+   is refused by a union column; a null for a non-nullable dictionary column is refused *)
+Theorem C05_union_unknown_variant : forall idx payload u,
+  (idx < 0 \/ Z.of_nat (length (u_fields u)) <= idx \/ 127 < idx)%Z -> union_push_variant idx payload u = Err.
+Proof.
+  intros idx payload u H. unfold union_push_variant. destruct (Z.ltb_spec idx 0) as [_|Hn]; [reflexivity|].
+  destruct (nth_error (u_fields u) (Z.to_nat idx)) as [[m c]|] eqn:E; [|reflexivity].
+  destruct (nth_error (u_cur u) (Z.to_nat idx)); [|reflexivity].
+  assert (Hlt : (Z.to_nat idx < length (u_fields u))%nat) by (apply nth_error_Some; congruence).
+  destruct H as [H|[H|H]]; try lia. unfold in_int, int_min, int_max. cbn.
+  destruct (Z.leb_spec (-128) idx); destruct (Z.leb_spec idx 127); cbn; try reflexivity; lia.
+Qed.
+
+Theorem C05_union_refuses_non_variants : forall v u,
+  match v with VUnitVariant _ _ | VNewtypeVariant _ _ _ | VTupleVariant _ _ _ | VStructVariant _ _ _ => False | _ => True end ->
+  union_push v u = Err.
+Proof. intros v u H. destruct v; try contradiction; reflexivity. Qed.
+
+Theorem C05_dictionary_null_non_nullable : forall k vk, dict_push VNone (dict_new k vk false) = Err.
+Proof. reflexivity. Qed.
+
 Print Assumptions C05_ser_int_exact.
 Print Assumptions C05_de_exact.
+Print Assumptions C05_union_unknown_variant.
